@@ -25,7 +25,7 @@ for pid in ALL:
         "level_claimed": {"category": "model_checking",
                           "text": info.get("level_text", "Bounded symbolic model checking of the real BaseGraph headers: for all values of the symbolic inputs within the stated bounds the assertions hold (SAT solver verdict UNSAT), every counterexample is replayed against the real build before it is reported. ") + info.get("explanation", ""),
                           "design_ref": "DESIGN.md §5 " + pid},
-        "level_note": "Trusted: the std operational model (/verif/model/std, validated each run by replaying solver witnesses on the real libstdc++ build and on the generated C), tools/ll2c, clang-14, CBMC 6.11 + MiniSat. Bounds: " + json.dumps(info.get("bounds")) + ". Outside the claim: " + str(info.get("outside")),
+        "level_note": "Trusted: the std operational model (/verif/model/std, validated each run by replaying solver witnesses on the real libstdc++ build and on the generated C), tools/ll2c, clang-14, CBMC 6.11 + MiniSat. Bounds: " + json.dumps(info.get("bounds")) + ". Outside the claim: " + str(info.get("outside")) + ". The thorough tier runs the quick tier's obligations (strict) plus the deeper queries, each under a budget (VERIF_THOROUGH_CAP seconds, default 1500, and its memory limit); a deeper query that gets no verdict within the budget is printed as UNEXPLORED, listed in the evidence (unexplored_within_budget) and is outside what that run claims. Capacity cuts of the finite std model are assertions of their own class: a reachable cut that the obligation does not declare fails it (exit 2).",
     })
 man = {
     "version": 1,
